@@ -283,6 +283,17 @@ func oracleC09Resume(f PbfFile, stop int, procs int, skipNodes bool) {
 	}
 	vAssert(n == k)
 	off := s.FullyScannedBytes()
+	if stop%2 == 0 {
+		// read on to the end: the offsets name the last block taken from the file (a trailing block whose
+		// objects were all skipped counts as taken); the end-of-stream marker is not a block
+		for s.Scan() {
+			n++
+		}
+		vAssert(s.Err() == nil)
+		vAssert(s.FullyScannedBytes() == int64(starts[len(objs)]))
+		s.Scan()
+		vAssert(s.FullyScannedBytes() == int64(starts[len(objs)]))
+	}
 	s.Close()
 	b := blockOf[k-1]
 	vAssert(off == int64(starts[b+1])) // offset of the block containing the k-th object
